@@ -534,10 +534,9 @@ Definition fsm_next (n : node) (orc : oracle) (now : Z) : eval :=
                             Some (if or_starting orc || or_stopping orc then OPERATION
                                   else if or_conflict orc then CONCILIATION else OPERATION))
                     | _ =>
-                        (* ConciliationState._master_next does not call the _WorkingState version *)
-                        if or_starting orc || or_stopping orc then Ok (n3, o1 ++ o3 ++ oc, Some CONCILIATION)
-                        else if negb (or_conflict orc) then Ok (n3, o1 ++ o3 ++ oc, Some OPERATION)
-                        else Ok (n3, o1 ++ o3 ++ oc ++ [Conciliate], Some CONCILIATION)
+                        if or_starting orc || or_stopping orc then Ok (n3, o1 ++ o3 ++ oc ++ ofail, Some CONCILIATION)
+                        else if negb (or_conflict orc) then Ok (n3, o1 ++ o3 ++ oc ++ ofail, Some OPERATION)
+                        else Ok (n3, o1 ++ o3 ++ oc ++ ofail ++ [Conciliate], Some CONCILIATION)
                     end
                   else Ok (n3, o1 ++ o3 ++ oc, master_state n3)
               end
